@@ -336,22 +336,31 @@ func (cw *CountingWindow) getKey(data any) string {
 	v := reflect.ValueOf(data)
 	keyParts := make([]string, 0, len(keys))
 	for _, k := range keys {
-		var part string
+		part := groupKeyNullPart
 		switch v.Kind() {
 		case reflect.Map:
 			if v.Type().Key().Kind() == reflect.String {
 				mv := v.MapIndex(reflect.ValueOf(k))
 				if mv.IsValid() {
-					part = cast.ToString(mv.Interface())
+					part = castKeyPart(mv.Interface())
 				}
 			}
 		case reflect.Struct:
 			f := v.FieldByName(k)
 			if f.IsValid() {
-				part = cast.ToString(f.Interface())
+				part = castKeyPart(f.Interface())
 			}
 		}
 		keyParts = append(keyParts, part)
 	}
-	return strings.Join(keyParts, "|")
+	return strings.Join(keyParts, groupKeyPartSep)
+}
+
+// castKeyPart renders one group value for a window key: NULL as groupKeyNullPart,
+// anything else as its escaped cast.ToString text.
+func castKeyPart(val any) string {
+	if val == nil {
+		return groupKeyNullPart
+	}
+	return escapeKeyPart(cast.ToString(val))
 }
